@@ -19,7 +19,7 @@ def run(res):
                        expect_violation=('InOnceInEntered',), count=False)
     # (C) conformance: the intended instance is dumped and replayed on the real loop
     Kr = lc.consts(MaxFrames=4 if th else 3, Sites=sites if th else {'p1', 'co'}, Incs={1},
-                   Reqs={'nop', 'switch', 'raise', 'quit_loop', 'poke', 'switchq', 'direct'})
+                   Reqs={'nop', 'switch', 'raise', 'quit_loop', 'poke', 'switchq', 'direct', 'respawn'})
     lc.check_and_replay(res, 'c13_switching', Kr, lc.INV, lc.PROPS_C13, own=OWN, walks=5000 if th else 1500, walk_len=10)
     Ks = lc.consts(MaxFrames=2, Sites=sites, Incs={1}, Reqs={'nop', 'switch', 'raise'})
     lc.check_and_replay(res, 'c13_all_sites', Ks, lc.INV, lc.PROPS_C13, own=OWN, walks=0)
